@@ -251,6 +251,7 @@ class Gen:
         self.fired = {}           # rule -> count
         self.functions = []       # dicts: key, mode, props, file, line
         self.dropped = {"tracing": 0, "comments": True}
+        self.crate_consts = set()
 
     # -- sources
     def src(self, rel):
@@ -323,6 +324,19 @@ class Gen:
                 hdr = hdr2
         attrs = clean_attrs(it)
         start_line = src.line_of(it.sig_start)
+        # R49: a constant of the crate root that the function names as `crate::NAME` is taken along (once per unit)
+        m_crate = re.match(r"(crates/[^/]+/src)/", src.rel)
+        if m_crate and mode != "assume":
+            for cname in sorted(set(re.findall(r"\bcrate::([A-Z][A-Z0-9_]*)\b", blank_comments(src, it.body_open, it.end)))):
+                if cname in self.crate_consts:
+                    continue
+                try:
+                    lib = self.src(m_crate.group(1) + "/lib.rs")
+                    self.item(lib, "const", cname)
+                    self.crate_consts.add(cname)
+                    self.fired["R49"] = self.fired.get("R49", 0) + 1
+                except (GenError, OSError):
+                    pass   # not a root constant: left to the compiler
         self.raw(f"// @fn {key} mode={mode} props={','.join(spec.get('props', []))} src={src.rel}:{start_line}")
         if spec.get("attrs"):
             self.raw(spec["attrs"])
